@@ -69,13 +69,14 @@ def run(ctx):
     ctx.log("R2: %d scripts; R3: %d scenarios on the real client, %d rejected" % (len(cases), len(lines), len(bad)))
     # a failed positive deadline is re-run once in isolation before it is reported
     retry = [lines[i]["script"] for i, _ in bad][:12]
+    retry_cfg = ["1" if lines[i].get("note") == "configured" else "2" for i, _ in bad][:12]
     bad = bad[:12]
     if retry and not ctx.replay:
         vlib.write_ndjson(cpath + ".retry", retry)
         lines2 = []
         for k, sc in enumerate(retry):
             vlib.write_ndjson(cpath + ".one", [sc])
-            p = vlib.run_harness(ctx.harness, ["handshake", "-cases", cpath + ".one", "-out", tpath + ".one", "-seed", str(ctx.seed), "-repo", vlib.REPO], timeout=600)
+            p = vlib.run_harness(ctx.harness, ["handshake", "-cases", cpath + ".one", "-out", tpath + ".one", "-seed", str(ctx.seed), "-n", retry_cfg[k], "-repo", vlib.REPO], timeout=600)
             lines2 += vlib.read_ndjson(tpath + ".one")
         bad2, _ = vlib.tlc_validate(ctx.scratch, "HandshakeTrace", "HandshakeTrace.cfg", [dict(l, events=[]) for l in lines2], timeout=900)
         confirmed = set(json.dumps(lines2[i]["script"], sort_keys=True) for i, _ in bad2)
